@@ -15,7 +15,7 @@ for P in ${@:-$(ls -d /tmp/wt/nout-C?? | sed "s/.*nout-//")}; do
     suite=$(cd $WT && timeout 900 /venv/bin/python -m pytest -q -p no:cacheprovider --timeout=900 2>&1 | tail -1)
     case "$suite" in *"$BASE"*) ;; *) echo "$P-$K suite differs: $suite"; git -C /repo worktree remove --force $WT; continue;; esac
     cp evidence/$P.json /tmp/wt/evidence-$P.bak 2>/dev/null
-    o=$(VERIF_REPO=$WT timeout 3000 ./check $P --tier quick 2>&1 | grep -E "^(VIOLATION|OK|KNOWN)" | head -4 | tr '\n' ' ')
+    o=$(VERIF_REPO=$WT timeout 3000 ./check $P --tier quick 2>&1 | grep -E "^(VIOLATION|OK)" | head -3 | tr '\n' ' ')
     cp /tmp/wt/evidence-$P.bak evidence/$P.json 2>/dev/null
     git -C /repo worktree remove --force $WT
     mkdir -p $DEST; cp $d/patch_$K.diff $DEST/patch.diff; cp $d/meta_$K.json $DEST/meta.json; [ -f $d/show_$K.py ] && cp $d/show_$K.py $DEST/show.py
